@@ -162,6 +162,13 @@ recorded as a finding.
   of the 40000-case run (or a decoder thread of an earlier case) was running.  A call that overruns is now
   measured a second time after `gc.collect()` and the smaller figure counts - a parser that is slow on an
   input is slow again.
+* Harness robustness (round 7 of the seeded changes): a change that makes `NackGenerator.add` loop and allocate
+  without bound drove C05's check to 7 GB in two minutes, and the "overran under load: retry with ten times the
+  budget" rule would have let the second attempt eat the machine.  The retry now happens only when the machine
+  really is busy (load average above half the cores) and the process did not grow by more than 1 GiB during the
+  first attempt; C05's per-case budget went from 120 s to 40 s, a hang is a verdict of its own (`hang`) in C05's
+  oracle, and hangs are not shrunk (every candidate would have to time out again).  The check then reports that
+  change in 14 minutes instead of not terminating within half an hour.
 * Pairing of channels in the two-endpoint oracles (C01/C02/C06) matched every channel with every peer
   channel of the same stream id; the new "one id, several channels in a row" scenarios made that
   ambiguous (300/300 `corrupt-message` on the unchanged tree before any result was recorded).  Channels
